@@ -252,11 +252,13 @@ def Opt(t):
 class Val:
     """A symbolic value: type descriptor + one z3 term."""
 
-    __slots__ = ("ty", "t", "foreign")
+    __slots__ = ("ty", "t", "foreign", "pykind")
 
-    def __init__(self, ty, t, foreign=False):
+    def __init__(self, ty, t, foreign=False, pykind=None):
         self.ty = ty
         self.t = t
+        # static tag for text-like values that share the Str sort: "bytes" (latin-1 view), "str", "safe"; None = untracked
+        self.pykind = pykind
         # foreign: a by-value VIEW of an object this function does not own (e.g. a value handed out by user code); mutating
         # it in place would change the caller's object - outside every frame condition
         self.foreign = foreign
